@@ -187,7 +187,7 @@ def o2_try_unban(chk, prog, roles, banned, target):
 
 
 # ------------------------------------------------------------------------------------------------ O3 failover loop
-def o3_get(chk, prog, roles, banned):
+def o3_get(chk, prog, roles, banned, only=None, props=('C07',)):
     name = 'O3-get-%s-banned%s' % (''.join('PR'[r] for r in roles), ''.join(map(str, banned)) or 'none')
     ob = chk.begin(name, 'ConnectionPool::get on a shard with servers %s, servers %r freshly banned; requested role, candidate order (shuffle), '
                    'checkout outcome, idle time, health-check answer / failure / timeout all chosen by the solver: a returned server has the '
@@ -341,6 +341,19 @@ def o3_get(chk, prog, roles, banned):
             scen = {'op': 'pool_get_scenario', 'servers': [{'role': 'primary' if roles[i] == 0 else 'replica', 'behaviour': behaviours[i]} for i in range(len(roles))],
                     'banned': list(banned), 'requested': {None: None, 0: 'primary', 1: 'replica'}[wr], 'healthcheck_timeout': 300, 'healthcheck_delay': 0, 'runs': 6}
         for k, what in problems:
+            if only is not None and k not in only:
+                continue
+            if k == 'failed-healthcheck-not-bad':
+                # natively: the server answers its health check AFTER the deadline; the connection that late reply arrives on must not be handed
+                # out again (whoever got it would read the health check's reply as the answer to its own statement: C01)
+                late = [b if b != 'hang_query' else 'late_query' for b in behaviours]
+                scen2 = dict(scen, servers=[{'role': 'primary' if roles[i] == 0 else 'replica', 'behaviour': late[i]} for i in range(len(roles))], followup=True, runs=3)
+                for prop_ in props:
+                    chk.report(ob, '%s/O3/%s' % (prop_, k), 'ConnectionPool::get (roles %s, banned %r, requested %s, consulted %r): %s -- bb8 will hand it out again, one reply behind'
+                               % (''.join('PR'[x] for x in roles), banned, {None: 'any', 0: 'primary', 1: 'replica'}[wr], consulted, what),
+                               {'roles': roles, 'banned': banned, 'requested': wr, 'consulted': consulted, 'behaviours': late},
+                               {'commands': [scen2], 'expect': ['c07_stale']})
+                continue
             chk.report(ob, 'C07/O3/' + k, 'ConnectionPool::get (roles %s, banned %r, requested %s, consulted %r): %s'
                        % (''.join('PR'[x] for x in roles), banned, {None: 'any', 0: 'primary', 1: 'replica'}[wr], consulted, what),
                        {'roles': roles, 'banned': banned, 'requested': wr, 'consulted': consulted, 'behaviours': behaviours},
@@ -377,6 +390,65 @@ def allowed_outcomes(roles, behaviours, banned, requested):
             break
         outs.add((res, tuple(sorted(banset))))
     return outs
+
+
+@expectation('c07_hosts')
+def c07_hosts(want):
+    def f(res):
+        r = res[0]
+        if 'panic' in r or 'error' in r:
+            return ('panic' in r), 'native: %r' % (r,)
+        return (sorted(r.get('ids', [])) != sorted(want), 'native get_addresses_from_host returns servers %r, servers on that host: %r' % (sorted(r.get('ids', [])), sorted(want)))
+    return f
+
+
+def o4_host_lookup(chk, prog, layout):
+    """What admin BAN <host> / UNBAN <host> act on: ConnectionPool::get_addresses_from_host.  layout: per shard a list of one-letter host names."""
+    name = 'O4-host-lookup-%s' % '_'.join(''.join(s) for s in layout)
+    ob = chk.begin(name, 'ConnectionPool::get_addresses_from_host (what the admin commands BAN <host> / UNBAN <host> act on) on shards whose servers are on hosts %r, '
+                   'for each host name and one that is not configured: the result is exactly the servers on that host, in every shard' % (layout,), {'hosts': [list(s) for s in layout]})
+    f_ = fn(prog, 'ConnectionPool::get_addresses_from_host')
+    ip = chk.interp(prog, name)
+    hosts = sorted({h for s in layout for h in s}) + ['zz']
+
+    def harness(ip_):
+        addrs, idx = [], 0
+        want_all = {}
+        for si, s in enumerate(layout):
+            row = []
+            for h in s:
+                a = mk_addr(ip_, prog, idx, 1 if idx else 0, shard=si)
+                setf(prog, a, 'Address', 'host', rstring('host-' + h))
+                want_all.setdefault(h, []).append(idx)
+                row.append(a)
+                idx += 1
+            addrs.append(row)
+        pool, _ps = mk_pool(ip_, prog, addrs, [MapV('hashmap') for _ in layout], settings_over={'shards': BV(64, len(layout))})
+        h = hosts[ip_.choose(len(hosts), 'which_host')]
+        r = ip_.call_function(f_, [Ptr(Cell(pool, 'pool')), Ptr(Cell(Seq([BV(8, b) for b in ('host-' + h).encode()], 'str'), 'h'))])
+        ob.nontrivial += 1
+        got = sorted(getf(prog, a, 'Address', 'id').v for a in items(ip_, r))
+        want = sorted(want_all.get(h, []))
+        if got != want:
+            chk.report(ob, 'C07/O4/host-lookup', 'BAN / UNBAN host-%s would act on servers %r; the servers on that host are %r' % (h, got, want), {'layout': [list(s) for s in layout]},
+                       {'commands': [{'op': 'host_lookup', 'layout': [list(s) for s in layout], 'host': h}], 'expect': ['c07_hosts', want]})
+        if len(ob.samples) < 2:
+            ob.samples.append({'host': h, 'servers': got})
+    ip.explore(harness)
+    chk.absorb(ob, ip)
+    chk.end(ob)
+
+
+@expectation('c07_stale')
+def c07_stale():
+    def f(res):
+        r = res[0]
+        if 'panic' in r or 'error' in r:
+            return ('panic' in r), 'native: %r' % (r,)
+        st = [x for run in r['runs'] for x in run.get('stale', [])]
+        return bool(st), ('native: after a health check that was answered late, the same connection was handed out again and the next statement got the health check\'s reply: %r' % st[:2]
+                          if st else 'native: no connection with a late health-check reply was handed out again')
+    return f
 
 
 @expectation('c07_get')
@@ -431,6 +503,8 @@ def main(chk):
     for roles, banned in (((ROLE_R,), []), ((ROLE_P, ROLE_R), []), ((ROLE_R, ROLE_R), []), ((ROLE_R, ROLE_R), [0]), ((ROLE_P, ROLE_R), [1]),
                           ((ROLE_R, ROLE_R), [0, 1])) + ((((ROLE_P, ROLE_R, ROLE_R), [1]),) if chk.thorough else ()):
         tasks.append((o3_get, (prog, roles, list(banned))))
+    for layout in ((('a', 'a', 'b'),), (('a', 'a', 'b'), ('a', 'b', 'a'))):
+        tasks.append((o4_host_lookup, (prog, layout)))
     chk.parallel(_dispatch, tasks)
     # the client loop's side: a replica that times out a statement is banned, whatever has become of the client (Client::handle executed)
     from checks import hobl
